@@ -48,6 +48,16 @@ CHECKS = {
  "C17": ("exploration", "request-matrix monitor: status / byte-level snapshots / sentinel and marker scanning of every response, plus a preservation model over authorised update sequences",
    "7 methods x 42 endpoint shapes x 39 credential kinds per target group against the real server in a child process: insufficient credentials must get 401 (404 where the path does not exist) with the groups directory and token file byte-identical and no planted marker in the response; no response ever contains a planted secret sentinel; random sequences of authorised updates are compared item by item with a model of what each request addresses. Held on the requests issued.",
    "Secrets and group data are recognised by planted unique strings; a few shapes are counted but not judged (listed in the evidence assumptions).", "5/C17"),
+
+ "C15": ("exploration", "nonce-tagged message log vs every client's received chat/usermessage/chathistory at logical quiescence",
+   "Real server in a child process; every sent message carries a unique nonce; at each quiescence point authenticity (source/username), the privileged flag, exact delivery sets for broadcast / addressed / bad-destination / spoofed / unpermitted messages, socket closure of spoofers, and the replayed history (<= 50 entries, order, clearchat variants, age) are judged against the sender-side log. Held on the executions observed.",
+   "Permission-dependent clauses are asserted only in epochs where the sender's permissions did not change; history age asserted only beyond 3.5 s / below 0.5 s with max-history-age 2 s.", "5/C15"),
+ "C19": ("exploration", "syscall monitor (strace -f -y) of the real server with a sentinel tree around its directories + validator agreement on generated strings",
+   "The server runs under strace while hostile names (.., //, backslash, %-encodings, NUL, symlink components) are used as group name, username, token group, URL paths, recording path, static path and delete-form filename (raw hand-written HTTP); every file syscall is attributed to one input and resolved (lexically, through live symlinks, and by the returned fd): writes/unlinks/renames must stay inside the roots, no sentinel may be touched, served or modified; validGroupName/validUsername/parseGroupName/sanitise are compared with a reference predicate on 10^5-10^7 strings. Held on the inputs tried; six open known findings rooted in os.Root of the pinned go1.24.0.",
+   "Operator-placed symlinks inside the groups directory are observed, not judged (lexical confinement); system reads are allow-listed from a benign baseline run.", "5/C19"),
+ "C20": ("exploration", "ground-truth frame list vs the produced WebM/Matroska file parsed with an independent EBML reader; root-cause attribution with a stand-alone copy of the pinned sample builder",
+   "The real diskwriter is driven through conn.Up/UpTrack (no hooks) with hash-identified Opus/VP8/VP9/H264 frames under delivery histories (reordering, duplicates, gaps the cache can or cannot fill, seqno and timestamp wrap, sender reports at any point); every block must be byte-identical to a sent frame, unique, ordered, with non-decreasing timecodes, complete from the first keyframe when everything is recoverable, in a well-formed container that is closed on stop/departure. Held on the sessions run; open known findings: three in the pinned jech/samplebuilder dependency, three in diskwriter's time origin handling.",
+   "Violations are keyed by root cause; a samplebuilder key is given only if a repaired builder on the same packets yields a clean track and the trigger fired.", "5/C20"),
 }
 
 NOT_YET = "check not built yet in this session (work in progress, see DESIGN.md section 9)"
